@@ -89,7 +89,8 @@ CLAIMED["C04"] = {
              "exactly one receive count of the matching kind on every path; five memory-order floors on c_b / c_c; reclamation is strictly below "
              "GVT; both collectives are entered only on the equality side of an RMW-result test; the reduction across ranks is MPI_MIN over one "
              "MPI_DOUBLE per rank and the message count is MPI_SUM over one MPI_UINT32_T per rank, with the C types of the buffers, separate "
-             "non-automatic buffers, and each *_done sibling testing the request its reduction started. NOT decided: monotonicity and safety of the "
+             "non-automatic buffers, and each *_done sibling testing the request its reduction started; for 1..8 threads the node-level minimum "
+             "equals the smallest local minimum wherever it sits, and for 1..8 ranks the send counts are accumulated for every rank. NOT decided: monotonicity and safety of the "
              "computed value under all interleavings of the reduction with message traffic, nor its equality across ranks."),
     "note": TRUST + " Floors are derived from the plain data each counter publishes; relaxed counters have no floor.",
 }
@@ -172,7 +173,8 @@ CLAIMED["C08"] = {
              "barrier (3 sites) is entered only by the thread a thread barrier elected (or thread 0); every iteration of the worker loop runs "
              "mpi_remote_msg_handle and gvt_phase_run, both wait loops of gvt_msg_drain step the GVT automaton, the last also drains MPI, and "
              "the thread's open round is completed before the first shutdown barrier; control_msg_process and ctrl_msgs[] cover every control "
-             "code with the right handler; LP_FINI is dispatched exactly once per LP; the counter votes depend on is conserved (C07.1). NOT "
+             "code with the right handler; LP_FINI is dispatched exactly once per LP; the counter votes depend on is conserved (C07.1); for 1..8 "
+             "ranks the control-message broadcast sends one notice to every rank. NOT "
              "decided: liveness under all interleavings of the last vote or a stop request with an open GVT round, MPI progress, spin-loop bounds."),
     "note": TRUST,
 }
